@@ -106,6 +106,11 @@ func parseRoute(node *treeNode, path string, method string, info *RouteInfo) (pa
 //	`/foo/bar/` will be matched by `/foo/bar/:param` or `/foo/bar/*`
 //	`/`         will be matched by `/` first and then `/:param` or `/*`
 func findRoute(node *treeNode, path string, method string, params *Params) (info *RouteInfo) {
+	if path == "" || path[0] != '/' {
+		// r.URL.Path is empty for "CONNECT host:port" and for absolute-form request
+		// targets without a path; treat a path without leading slash as rooted.
+		path = "/" + path
+	}
 	var length, left, right int = len(path), 0, 0
 	if length == 1 {
 		if n := node.methodNodeOrNil(method); n != nil {
